@@ -761,6 +761,104 @@ def v4(rep, src):
         rep.violation("V4", key, "sigma is not clamp(gaussian_noise_multiplier(epsilon, delta) * sensitivity, 0, f64::MAX): %s" % show(g.body, 200), g.where())
 
 
+def v5(rep, src):
+    """The event algebra keeps every entry: compose only drops no-ops, is_no_op of a composition looks at all its entries (or compose is the only constructor)."""
+    rep.rule(
+        "V5",
+        "event algebra (dp_event.rs): (a) DpEvent::compose returns one operand alone only when the OTHER one is_no_op(), otherwise Composed with the entries of both; "
+        "(b) is_no_op is true for NoOp, for a zero multiplier / zero (epsilon, delta), and for a Composed event only when ALL its entries are no-ops — or, if it inspects fewer entries, "
+        "every `DpEvent::Composed {..}` is built by compose (which never stores a no-op); (c) FromIterator / From<Vec> go through compose or respect (b)",
+        floor=5,
+        necessary="an aggregation event [NoOp, Gaussian, ..] that reports itself as a no-op is dropped by the next compose: the query keeps its mechanisms, the returned event loses them",
+    )
+    F = DP + "dp_event.rs"
+    comp = _one(src, name="compose", self_ty="DpEvent", file=F)
+    isn = _one(src, name="is_no_op", self_ty="DpEvent", file=F)
+    # (a) compose
+    ps = [pat_ident(p["pat"]) for p in nonself_params(comp)]
+    other = ps[0] if ps else "other"
+    exits = []
+    from .core import walk_guards as _wg
+    from .util_terms import desugar_early_returns as _der
+
+    body = _der(comp.body)
+
+    def leaves(e, guards):
+        if e is None:
+            return
+        if e["k"] == "block":
+            st = e["stmts"]
+            if st and st[-1]["k"] == "expr" and not st[-1].get("semi"):
+                leaves(st[-1]["e"], guards)
+            return
+        if e["k"] == "if" and e["cond"]["k"] != "letcond":
+            leaves(e["then"], guards + [(e["cond"], True)])
+            if e.get("else") is not None:
+                leaves(e["else"], guards + [(e["cond"], False)])
+            return
+        exits.append((e, guards))
+
+    leaves(body, [])
+    ok_a = True
+    for e, guards in exits:
+        who = path_of(strip_wrappers(e))
+        if who in ("self", other):
+            dropped = other if who == "self" else "self"
+            need = "%s.is_no_op()" % dropped
+            if not any(pol and show(c, 0).replace(" ", "") == need for c, pol in guards):
+                ok_a = False
+                rep.violation("V5", "DpEvent::compose@%s" % who, "compose returns `%s` alone without `%s` holding: the entries of the other operand are lost" % (who, need), comp.where())
+        elif not (e["k"] == "struct" and e["path"]["segs"][-1:] == ["Composed"]):
+            rep.undecidable("V5", "DpEvent::compose@exit", "exit of compose not understood: %s" % show(e, 80), comp.where())
+            ok_a = False
+    rep.instance("V5", "DpEvent::compose", {"exits": [show(e, 50) for e, _ in exits], "drops_only_no_ops": ok_a})
+    # (b) is_no_op arm table
+    m = _tail_expr(isn.body)
+    robust = None
+    if m is None or m["k"] != "match" or path_of(m["e"]) != "self":
+        rep.undecidable("V5", "DpEvent::is_no_op", "is_no_op is not a `match self`", isn.where())
+    else:
+        for a in m["arms"]:
+            pt = show(a["pat"], 0)
+            b = a["body"]
+            while b["k"] == "block" and len(b["stmts"]) == 1 and b["stmts"][0]["k"] == "expr":
+                b = b["stmts"][0]["e"]
+            txt = show(b, 0).replace(" ", "")
+            if "Composed" in pt:
+                q = [x for x in find(b, "mcall") if x["m"] in ("all", "any", "first", "last", "map_or", "is_some_and", "find", "position", "nth", "is_empty", "len")]
+                robust = b["k"] == "mcall" and b["m"] == "all" and len(b["args"]) == 1 and b["args"][0]["k"] == "closure" and show(b["args"][0]["body"], 0).replace(" ", "").endswith(".is_no_op()") and {x["m"] for x in find(b["recv"], "mcall")} <= {"iter", "into_iter"}
+                rep.instance("V5", "DpEvent::is_no_op@Composed", {"body": show(b, 80), "all_entries": bool(robust)})
+                if not robust and "is_no_op" not in txt:
+                    rep.violation("V5", "DpEvent::is_no_op@Composed", "a composed event is declared a no-op without looking at its entries: %s" % show(b, 80), isn.where())
+            elif "NoOp" in pt:
+                rep.instance("V5", "DpEvent::is_no_op@NoOp", {"body": txt})
+                if txt != "true":
+                    rep.violation("V5", "DpEvent::is_no_op@NoOp", "NoOp is not a no-op: %s" % txt, isn.where())
+            elif "Gaussian" in pt or "Laplace" in pt or "EpsilonDelta" in pt:
+                zero_tests = [c for c in find(b, "binary") if c["op"] == "==" and any(show(sd, 0).replace(" ", "").lstrip("&") in ("0.0", "0.", "0", "0f64") for sd in (c["lhs"], c["rhs"]))]
+                binds = [x["name"] for x in walk(a["pat"]) if x["k"] == "ident"]
+                ors = [c for c in find(b, "binary") if c["op"] == "||"]
+                rep.instance("V5", "DpEvent::is_no_op@" + pt.split("{")[0].replace(" ", "")[:40], {"body": txt, "zero_tests": len(zero_tests), "bound": binds})
+                if len(zero_tests) < len(set(binds)) or ors or txt == "true":
+                    rep.violation("V5", "DpEvent::is_no_op@" + pt.split("{")[0].replace(" ", "")[:40], "a mechanism entry is declared a no-op without all its parameters being zero: %s" % show(b, 80), isn.where())
+    # (c) constructors of Composed
+    sites = []
+    for f in src.fns:
+        if f.test or not f.body or not f.file.startswith(DP.rstrip("/")) and not f.file.startswith("rewriting/"):
+            continue
+        for x in find(f.body, "struct"):
+            if x["path"]["segs"][-1:] == ["Composed"] and any(fl["name"] == "events" and "e" in fl for fl in x.get("fields", [])):  # expressions only (patterns carry `pat`)
+                sites.append((f, x))
+    outside = [(f, x) for f, x in sites if not (f.name == "compose" and (f.self_ty or "") == "DpEvent")]
+    rep.instance("V5", "DpEvent::Composed@constructors", {"sites": sorted({f.qual for f, _ in sites})})
+    if robust is False:
+        if outside:
+            f, x = outside[0]
+            rep.violation("V5", "DpEvent::is_no_op@Composed", "is_no_op does not inspect all the entries of a composed event while %s builds `DpEvent::Composed` directly (entries may be no-ops): [NoOp, Gaussian] reports itself as a no-op and is dropped by compose" % f.qual, "src/%s:%d" % (f.file, x["l"]))
+        elif not ok_a:
+            rep.violation("V5", "DpEvent::is_no_op@Composed", "is_no_op does not inspect all the entries of a composed event and compose does not guarantee they are not no-ops", isn.where())
+
+
 def run(rep):
     rep.explanation = (
         "Static flow / term rules for 'privacy loss is never under-reported'. V1 (type-checked MIR of every body of crate qrlew that can return an event): "
@@ -779,6 +877,7 @@ def run(rep):
     v2(rep, src)
     v3(rep, src)
     v4(rep, src)
+    v5(rep, src)
     rep.assume("MIR facts are those of `cargo check --lib` with default features (cfg(test) code is not analysed)")
     rep.assume("a call whose arguments hold no event and whose result type can hold one produces a fresh event (origin); calls with event arguments propagate them")
     rep.assume("the share field tau_thresholding_share lies in [0,1] and counts are >= 1 where stated (guard or iteration checked)")
